@@ -306,3 +306,10 @@ def c09_close_instances(cls):
     with registry.x64(True):  # float64 device arrays, as in a session that works in double precision
         a, b = cls(jnp.asarray(C09_W, dtype=jnp.float64)), cls(jnp.asarray(C09_W_CLOSE, dtype=jnp.float64))
     return lambda x: (b(x) - a(x), a(x) + b(x) * 3.0)
+
+
+@onnx_function
+def c04_scalar_summary(v):
+    import jax.numpy as jnp
+
+    return jnp.sum(jnp.tanh(v) * 2.0) + jnp.max(v)
